@@ -233,6 +233,54 @@ func runMetaHistory(r *rand.Rand, nops int, allowBad, allowReadd bool, t *Trace)
 	gone := []uint32{}
 	nextID := uint32(1)
 	for step := 0; step < nops; step++ {
+		if allowReadd && step == nops/3 {
+			// a numeric field updated by remove + add: the new value, and only the new value, is findable
+			// (values chosen so that the old one has bits the new one lacks; no random draws, so the rest of
+			// the history is what it was)
+			pairs := [][2]interface{}{{10, 5}, {7, 2}, {100, 3}, {int64(12), int64(3)}, {1 << 40, 1}, {-1, 2}, {5, -8}, {9.99, 0.5}, {1.25, -0.004}}
+			pr := pairs[(nops+len(ops))%len(pairs)]
+			field := "n"
+			if _, isf := pr[0].(float64); isf {
+				field = "price"
+			}
+			id := nextID
+			nextID++
+			emitAdd := func(doc map[string]interface{}) {
+				keys := make([]string, 0, len(doc))
+				for k := range doc {
+					keys = append(keys, k)
+				}
+				sort.Strings(keys)
+				err := idx.Add(*comet.NewMetadataNodeWithID(id, doc))
+				ops = append(ops, func(c *Case) {
+					c.N(1).U(uint64(id)).N(len(keys))
+					for _, k := range keys {
+						c.Str(k)
+						encValue(c, doc[k])
+					}
+					c.B(err != nil)
+				})
+			}
+			emitSearch := func(f comet.Filter) {
+				res, err := idx.NewSearch().WithFilters(f).Execute()
+				ops = append(ops, func(c *Case) {
+					c.N(4).N(1)
+					encFilter(c, f)
+					c.N(0)
+					c.B(err != nil).U32s(idsOf(res))
+				})
+			}
+			emitAdd(map[string]interface{}{field: pr[0], "cat": "a"})
+			idx.Remove(*comet.NewMetadataNodeWithID(id, nil))
+			ops = append(ops, func(c *Case) { c.N(2).U(uint64(id)) })
+			emitAdd(map[string]interface{}{field: pr[1]})
+			live = append(live, id)
+			emitSearch(comet.Eq(field, pr[1]))
+			emitSearch(comet.Eq(field, pr[0]))
+			emitSearch(comet.Gt(field, pr[1]))
+			emitSearch(comet.Lt(field, pr[1]))
+			t.Stat("meta.numeric_update_script")
+		}
 		x := r.Intn(100)
 		switch {
 		case x < 35:
